@@ -83,8 +83,22 @@ type txDef struct {
 	tx                      *btcutil.Tx
 }
 
+// witnessScript: `<pad bytes> OP_DROP OP_TRUE` — a P2WSH spend whose witness is large (raw size >> vsize).
+func witnessScript(pad int) []byte {
+	b := txscript.NewScriptBuilder().AddData(make([]byte, pad)).AddOp(txscript.OP_DROP).AddOp(txscript.OP_TRUE)
+	sc, _ := b.Script()
+	return sc
+}
+
+func p2wsh(script []byte) []byte {
+	h := sha256.Sum256(script)
+	return append([]byte{txscript.OP_0, txscript.OP_DATA_32}, h[:]...)
+}
+
 func pkFor(o outDef) []byte {
 	switch o.kind {
+	case 'w':
+		return p2wsh(witnessScript(o.pad))
 	case 'p':
 		return pkP2SHTrue
 	case 't':
@@ -157,6 +171,14 @@ func (u *universe) outInfo(txid, idx int) (int64, byte, bool) {
 	return 0, 0, false
 }
 
+// outPad: the pad parameter of an abstract outpoint's script (witness outputs).
+func (u *universe) outPad(txid, idx int) int {
+	if d, ok := u.defs[txid]; ok && idx < len(d.outs) {
+		return d.outs[idx].pad
+	}
+	return 0
+}
+
 // build constructs the real transaction of a definition.
 func (u *universe) build(d *txDef) {
 	m := wire.NewMsgTx(d.ver)
@@ -169,7 +191,12 @@ func (u *universe) build(d *txDef) {
 		}
 		_, kind, known := u.outInfo(in.txid, in.idx)
 		var sig []byte
+		var wit wire.TxWitness
 		switch {
+		case known && kind == 'w' && in.kind == 'g':
+			wit = wire.TxWitness{witnessScript(u.outPad(in.txid, in.idx))}
+		case known && kind == 'w':
+			wit = wire.TxWitness{[]byte{txscript.OP_FALSE}} // wrong script: program hash mismatch
 		case known && kind == 't' && in.kind == 'g':
 			sig = nil
 		case known && kind == 't':
@@ -179,7 +206,7 @@ func (u *universe) build(d *txDef) {
 		default:
 			sig = []byte{txscript.OP_DATA_1, txscript.OP_FALSE}
 		}
-		ti := wire.NewTxIn(&op, sig, nil)
+		ti := wire.NewTxIn(&op, sig, wit)
 		ti.Sequence = in.seq
 		m.AddTxIn(ti)
 	}
@@ -215,7 +242,7 @@ func (u *universe) facts(d *txDef, maxVer int32, minRelay int64) (fee, vsize, ss
 			continue
 		}
 		in += v
-		if k != 'p' {
+		if k != 'p' && k != 'w' {
 			insStd = false
 		}
 		if i.kind != 'g' {
